@@ -166,7 +166,10 @@ def run_c05(chk):
     n = 300 if chk.tier == "quick" else 10000
     fixed = ["10 X = 1\n10", '10 PRINT 1 +\n10 PRINT "', "10 PRINT é", "18446744073709551615 PRINT 1", "", "\n", "\r\n", "10",
              "10 PRINT " + "(" * 5000 + "1", "10 " + "IF 1 THEN " * 3000 + "PRINT 1", "10 PRINT 1\n10 PRINT 2\n10\n10 PRINT \"",
-             "10 A = B\n20 B = A\n10 A = C", "10 DEF F(X) = X\n20 PRINT F(1)\n10", "5 GOTO 10\n10 END\n10", "10 FOR I=1 TO 2\n20 NEXT I\n20"]
+             "10 A = B\n20 B = A\n10 A = C", "10 DEF F(X) = X\n20 PRINT F(1)\n10", "5 GOTO 10\n10 END\n10", "10 FOR I=1 TO 2\n20 NEXT I\n20",
+             # recursion that does not go through a parenthesis or an IF: runs of unary operators (missed seeded changes
+             # C05-mut7 / C01-mut7: a unary operator parsing its own operand, outside the nesting guard)
+             "10 PRINT " + "-" * 300000 + "1", "10 X = " + "NOT " * 150000 + "1\n20 PRINT " + "- NOT " * 100000 + "X"]
     cases = []
     for i in range(n + len(fixed)):
         r = chk.rng.fork(("c05", i))
